@@ -19,7 +19,7 @@ META = {
                    "reads off the MIR of infix_bp/prefix_bp. The oracle is Gleam's published precedence table (all binary "
                    "operators left-associative, unary tighter than any binary). G3 catches a dispatcher arm that no guarded "
                    "call site can reach (valid programs rejected).",
-    "not_decided": "statement/item boundaries, label look-ahead, `type =` look-ahead, accessor child positions in ast.rs.",
+    "not_decided": "statement/item boundaries, label look-ahead, `type =` look-ahead; that an accessor returns the right child in every position (G4/G5 decide overlap and coverage by node kind, not by position); lexemes other than the number forms of G6.",
     "trusted_base": ["Gleam's operator precedence table as encoded in ORACLE", "rustc MIR + const evaluation"],
     "assumptions": [],
 }
@@ -328,6 +328,10 @@ def accessors(F):
                 k = t["args"][1].get("k") or {}
                 if "bits" in k:
                     idx, allc = int(k["bits"]), False
+            # a slot found by its position: the first child of type N after a given token (and before another)
+            if c.endswith("ast::child_between") and targs:
+                d_ = FL.Defs(f)
+                T, idx = targs[0], "after:%s" % (FL.kind_of_operand(f, d_, t["args"][1]) or "?")
         if T:
             node, meth = p.rsplit("::", 1)
             acc.setdefault(node, []).append((meth, T, "all" if allc else idx))
@@ -366,6 +370,7 @@ def accessor_rules(F, res, pure, kinds):
             if s_ != "all":
                 by_t.setdefault(T, []).append((s_, m))
         for T, xs in sorted(by_t.items()):
+            xs = [x for x in xs if not str(x[0]).startswith("after:")]
             if len(xs) < 2:
                 continue
             idxs = sorted(i for i, _ in xs)
@@ -386,6 +391,10 @@ def accessor_rules(F, res, pure, kinds):
                 npairs += 1
                 a, b_ = sorted([m1, m2])
                 rv = ACCESSOR_OVERLAP_REVIEWED.get((short_node, m1, m2)) or ACCESSOR_OVERLAP_REVIEWED.get((short_node, m2, m1))
+                pos = [x for x in (s1, s2) if str(x).startswith("after:")]
+                if not rv and pos:
+                    rv = "positional: %s selects its child by what stands after the token %s, not by being the first child that casts; its " \
+                         "sibling stands in front of that token (or behind another one)" % (m1 if str(s1).startswith("after:") else m2, pos[0][6:])
                 res.ob("G4", "overlap/%s/%s+%s" % (short_node, a, b_),
                        "%s::%s (%s) and %s::%s (%s) never select the same child" % (short_node, m1, T1.rsplit("::", 1)[-1], short_node, m2, T2.rsplit("::", 1)[-1]),
                        bool(rv), where="crates/syntax/src/ast.rs",
